@@ -76,6 +76,7 @@ Lemma handle_cts r from dst g nxt b3 b4 p0 p1 p2 :
   | None => (true, r, [], mx)
   | Some pm =>
     if m_dst pm =? 255 then (true, r, [], mx) else
+    if negb (m_dst pm =? from) then (true, r, [], mx) else
     if negb (m_pgn pm =? tpgn) then (true, end_send_tp_r r idev, [], mx) else
     if g >? 0 then
       if negb (nxt - 1 =? d_next_dt_seq d) then (true, end_send_tp_r r idev, [], mx) else
@@ -168,12 +169,12 @@ Proof. intros H. change (2^24) with 16777216 in H. unfold b0, b1, b2. dm. Qed.
 
 Theorem tp_cts_serves : tp_cts_serves_stmt.
 Proof.
-  unfold tp_cts_serves_stmt. intros r i pm sq from dst g nxt pgn P Hne A Hfrom Hg Hnxt Hpgn Hpm. cbv zeta.
+  unfold tp_cts_serves_stmt. intros r i pm sq from dst g nxt pgn P Hne A Hfrom Hg Hnxt Hpgn Hpm. cbv zeta. subst from.
   pose proof P as (R & Hp & Hsq & Hsrc & Hlen & Hdst & Hb). pose proof (pending_valid _ _ _ _ P) as Hi.
   pose proof (npackets_bounds _ Hlen) as NB.
   unfold cm_cts. rewrite handle_cts. cbv zeta. rewrite (addressed_find r dst i A), pgn_bytes by exact Hpgn.
   destruct (Z.leb_spec 0 i); [|lia]. destruct (Z.ltb_spec i (dev_count (rn r))); [|lia]. cbn [andb negb].
-  rewrite Hp. destruct (Z.eqb_spec (m_dst pm) 255); [contradiction|]. rewrite Hsq.
+  rewrite Hp. destruct (Z.eqb_spec (m_dst pm) 255); [contradiction|]. rewrite Z.eqb_refl. cbn [negb]. rewrite Hsq.
   split; [|split].
   - intros -> Hg1 ->. rewrite Z.eqb_refl. cbn [negb]. destruct (Z.gtb_spec g 0); [|lia].
     replace (sq + 1 - 1) with sq by lia. rewrite Z.eqb_refl. cbn [negb].
@@ -197,7 +198,7 @@ Proof. unfold dt_events. rewrite seq_app, map_app. reflexivity. Qed.
 Lemma sum_nonneg gs : Forall (fun g => 0 <= g < 256) gs -> 0 <= fold_right Z.add 0 gs.
 Proof. induction 1; cbn [fold_right]; lia. Qed.
 
-Lemma run_cts : forall gs r i pm sq from dst, tp_pending r i pm sq -> m_dst pm <> 255 -> addressed r dst i -> 0 <= from < 256 -> 0 <= m_pgn pm < 2^24 ->
+Lemma run_cts : forall gs r i pm sq from dst, tp_pending r i pm sq -> m_dst pm <> 255 -> addressed r dst i -> from = m_dst pm -> 0 <= m_pgn pm < 2^24 ->
   Forall (fun g => 0 <= g < 256) gs ->
   let total := Z.min (fold_right Z.add 0 gs) (npackets (m_len pm) - sq) in
   let '(r', ev) := feed_cm r from dst (peer_cts gs (npackets (m_len pm)) sq (m_pgn pm)) in
@@ -247,7 +248,7 @@ Lemma handle_ack_abort r from dst ctrl x1 x2 x3 x4 p0 p1 p2 : ctrl = 19 \/ ctrl 
   let idev := find_source_device r dst in
   if negb ((0 <=? idev) && (idev <? dev_count (rn r))) then (true, r, [], mx) else
   match d_tp_msg (get_dev (rn r) idev) with
-  | Some pm => if m_dst pm =? 255 then (true, r, [], mx) else (true, end_send_tp_r r idev, [], mx)
+  | Some pm => if (m_dst pm =? 255) || negb (m_dst pm =? from) then (true, r, [], mx) else (true, end_send_tp_r r idev, [], mx)
   | None => (true, r, [], mx)
   end.
 Proof. intros [-> | ->]; reflexivity. Qed.
@@ -263,15 +264,30 @@ Proof.
   unfold tp_ack_abort_timeout_stmt. intros r i pm sq P Hne.
   pose proof P as (R & Hp & Hsq & Hsrc & Hlen & Hdst & Hb). pose proof (pending_valid _ _ _ _ P) as Hi.
   split; [|split; [|split]].
-  - intros from dst ctrl x1 x2 x3 x4 pgn A Hfrom Hc. rewrite handle_ack_abort by exact Hc. cbv zeta. rewrite (addressed_find r dst i A).
+  - intros from dst ctrl x1 x2 x3 x4 pgn A Hfrom Hc. subst from. rewrite handle_ack_abort by exact Hc. cbv zeta. rewrite (addressed_find r dst i A).
     destruct (Z.leb_spec 0 i); [|lia]. destruct (Z.ltb_spec i (dev_count (rn r))); [|lia]. cbn [andb negb].
-    rewrite Hp. destruct (Z.eqb_spec (m_dst pm) 255); [contradiction|]. rewrite end_send_state by exact Hi. reflexivity.
+    rewrite Hp. destruct (Z.eqb_spec (m_dst pm) 255); [contradiction|]. rewrite Z.eqb_refl. cbn [negb orb]. rewrite end_send_state by exact Hi. reflexivity.
   - intros T. unfold send_pending_tp. rewrite chk_dev_ok by exact Hi. rewrite Hp, T.
     destruct (Z.eqb_spec (m_dst pm) 255); [contradiction|]. rewrite end_send_state by exact Hi. reflexivity.
   - intros T. unfold send_pending_tp. rewrite chk_dev_ok by exact Hi. rewrite Hp, T. reflexivity.
   - apply ended_ready. exact R.
 Qed.
 Print Assumptions tp_ack_abort_timeout.
+
+(* ================= control frames from a third station ================= *)
+Theorem tp_foreign_ctrl_ignored : tp_foreign_ctrl_ignored_stmt.
+Proof.
+  unfold tp_foreign_ctrl_ignored_stmt. intros r i pm sq from dst ctrl x1 x2 x3 x4 x5 x6 x7 P Hne A Hfrom Hc.
+  pose proof P as (R & Hp & Hsq & Hsrc & Hlen & Hdst & Hb). pose proof (pending_valid _ _ _ _ P) as Hi.
+  destruct Hc as [-> | Hc].
+  - rewrite handle_cts. cbv zeta. rewrite (addressed_find r dst i A).
+    destruct (Z.leb_spec 0 i); [|lia]. destruct (Z.ltb_spec i (dev_count (rn r))); [|lia]. cbn [andb negb].
+    rewrite Hp. destruct (Z.eqb_spec (m_dst pm) 255); [contradiction|]. destruct (Z.eqb_spec (m_dst pm) from); [congruence|]. reflexivity.
+  - rewrite handle_ack_abort by exact Hc. cbv zeta. rewrite (addressed_find r dst i A).
+    destruct (Z.leb_spec 0 i); [|lia]. destruct (Z.ltb_spec i (dev_count (rn r))); [|lia]. cbn [andb negb].
+    rewrite Hp. destruct (Z.eqb_spec (m_dst pm) 255); [contradiction|]. destruct (Z.eqb_spec (m_dst pm) from); [congruence|]. reflexivity.
+Qed.
+Print Assumptions tp_foreign_ctrl_ignored.
 
 (* ================= timers ================= *)
 Theorem tp_timer : tp_timer_stmt.
